@@ -7,6 +7,13 @@ Protocol (one line in, one line out; the PH/PG lines are the ones lean/PysnarkMo
   PH|id|key|p|permute/hash|inputs  -> id|values|ncons=|npriv=|sdig=|odig=|wdig=|unsat=|incoh=|shape=   or id|err:<Class>
   PAD|id|inputs                    -> id|<padded form the real padding code hands to the permutation>|calls=<n>
   PG|id|p|coefs|bits               -> id|int/lc|value|ncons=|npriv=|odig=|coefs=<the code's own SHA512_prng(i)>  or id|err:<Class>
+  GC|id|p|n                        -> id|<the code's own SHA512_prng(i) for i < n, comma-separated>
+  PC|id|p|gadget|guard|inputs      -> id|<values>|ncons=|nunsat=|unsat=<first indices>|incoh=<output positions>|notred=<outputs outside [0,p)>  or id|err:<Class>
+        gadget = permute | hash | ggh; guard = - | 1 (run inside guarded(PrivValBool(1))); inputs = typed tokens
+        s<int> PrivVal, u<int> PubVal, b<0/1> PrivValBool, c<0/1> PubValBool, x<m>:<e> PrivValFxp(m/2^e), y<m>:<e> PubValFxp, i<int> plain int (ggh)
+
+A backend that records nothing (pysnark.nobackend) is driven too: values and the runtime's own constraint counter
+(runtime.num_constraints) are reported, the digests / satisfaction fields are `na`.
 """
 import sys, os, hashlib, traceback, warnings
 
@@ -30,6 +37,7 @@ except BaseException as e:          # NotImplementedError for backends without p
 G = None
 
 BASE = 1000003
+NC0 = 0
 
 
 def probe(k):
@@ -56,8 +64,14 @@ def recorded(k):
     return 1 if k == 0 else (B.pubvals[k - 1] if k > 0 else B.privvals[-k - 1])
 
 
+RECORDS = all(hasattr(B, a) for a in ("privvals", "pubvals", "constraints"))
+
+
 def reset():
-    B.privvals.clear(); B.pubvals.clear(); B.constraints.clear()
+    global NC0
+    if RECORDS:
+        B.privvals.clear(); B.pubvals.clear(); B.constraints.clear()
+    NC0 = R.num_constraints
     R.guard = None
     R._ignore_errors = False
     LinComb.ONE = LinComb.ONE_SAFE
@@ -69,21 +83,62 @@ def fingerprint(c):
 
 
 def trace_report(p, outs):
+    if not RECORDS:
+        # nothing is recorded: the number of constraints handed to the backend is the runtime's own counter
+        return f"ncons={R.num_constraints - NC0}|npriv=na|sdig=na|odig=na|wdig=na|unsat=na|incoh=na|shape=na|rcount={R.num_constraints - NC0}"
     cons = B.constraints
-    sd = digest(p, [ev(l, probe) for c in cons for l in c])
-    od = digest(p, [ev(x.lc, probe) for x in outs])
+    # wire k >= 0 is at index k (0 = the constant one, k = public k), wire k < 0 (private -k) at index k counted from the end
+    rec = [1] + list(B.pubvals) + list(B.privvals)[::-1]
+    prb = [probe(k) for k in range(len(B.pubvals) + 1)] + [probe(-i) for i in range(len(B.privvals), 0, -1)]
+
+    def ev_(lc, arr):
+        return sum(c * arr[k] for k, c in lc.lc.items())
+    sd = digest(p, [ev_(l, prb) for c in cons for l in c])
+    od = digest(p, [ev_(x.lc, prb) for x in outs])
     wd = digest(p, B.privvals)
-    unsat = sum(1 for c in cons if (ev(c[0], recorded) * ev(c[1], recorded) - ev(c[2], recorded)) % p != 0)
-    incoh = sum(1 for x in outs if (ev(x.lc, recorded) - x.value) % p != 0)
+    unsat = sum(1 for c in cons if (ev_(c[0], rec) * ev_(c[1], rec) - ev_(c[2], rec)) % p != 0)
+    incoh = sum(1 for x in outs if (ev_(x.lc, rec) - x.value) % p != 0)
+    # shape: every wire expression with coefficients reduced mod p, zero terms dropped (compared between inputs of one run only;
+    # coefficients are hashed as bytes: decimal conversion of 255-bit integers dominated the cost of a line)
     h = hashlib.sha256()
+    nb = (p.bit_length() + 7) // 8
+
+    def feed(lc, end):
+        for k in sorted(lc.lc):
+            v = lc.lc[k] % p
+            if v:
+                h.update(b"%d:" % k); h.update(v.to_bytes(nb, "little"))
+        h.update(end)
     for c in cons:
         for l in c:
-            h.update((",".join(f"{k}:{v % p}" for k, v in sorted(l.lc.items()) if v % p) + "#").encode())
+            feed(l, b"#")
         h.update(b";")
     for x in outs:
-        h.update((",".join(f"{k}:{v % p}" for k, v in sorted(x.lc.lc.items()) if v % p) + "!").encode())
+        feed(x.lc, b"!")
     return (f"ncons={len(cons)}|npriv={len(B.privvals)}|sdig={sd}|odig={od}|wdig={wd}|unsat={unsat}|incoh={incoh}"
-            f"|shape={h.hexdigest()[:24]}")
+            f"|shape={h.hexdigest()[:24]}|rcount={R.num_constraints - NC0}")
+
+
+def typed_input(tok):
+    """typed input token of a PC line -> the real object"""
+    from pysnark.runtime import PubVal
+    from pysnark.boolean import PrivValBool, PubValBool
+    from pysnark.fixedpoint import PrivValFxp, PubValFxp
+    from fractions import Fraction
+    k, v = tok[0], tok[1:]
+    if k == "s": return PrivVal(int(v))
+    if k == "u": return PubVal(int(v))
+    if k == "b": return PrivValBool(int(v))
+    if k == "c": return PubValBool(int(v))
+    if k in "xy":
+        m, e = v.split(":")
+        return (PrivValFxp if k == "x" else PubValFxp)(float(Fraction(int(m), 2 ** int(e))))
+    if k == "i": return int(v)
+    raise ValueError(tok)
+
+
+def lc_of(x):
+    return x.lc if not isinstance(x, LinComb) else x
 
 
 def ints(s):
@@ -161,6 +216,51 @@ def handle(f):
             return (f"{cid}|lc|{r.value}|ncons={len(B.constraints)}|npriv={len(B.privvals)}|odig={digest(p, [ev(r.lc, probe)])}"
                     f"|incoh={incoh}|coefs={','.join(map(str, own))}")
         return f"{cid}|int|{r}|ncons={len(B.constraints)}|npriv={len(B.privvals)}|odig=0|incoh=0|coefs={','.join(map(str, own))}"
+    if tag == "GC":
+        if G is None:
+            import pysnark.ggh_hash as G_
+            G = G_
+        p = int(f[2])
+        if p != B.get_modulus() or p != G.PRIME:
+            return f"{cid}|harness-error|modulus of this worker is {B.get_modulus()}, ggh PRIME {G.PRIME}"
+        return f"{cid}|" + ",".join(str(G.SHA512_prng(i)) for i in range(int(f[3])))
+    if tag == "PC":
+        # completeness of a hash gadget on THIS backend's field: every recorded constraint on the recorded witness, every
+        # returned value against its wire expression; inputs of every secret type, optionally inside a taken guard
+        p = int(f[2])
+        if p != B.get_modulus() or not RECORDS:
+            return f"{cid}|harness-error|modulus of this worker is {B.get_modulus()}, records={RECORDS}"
+        gadget, guard = f[3], f[4]
+        if gadget == "ggh":
+            if G is None:
+                import pysnark.ggh_hash as G_
+                G = G_
+            fn = G.ggh_hash
+        else:
+            if H is None:
+                return f"{cid}|err:{H_ERR}"
+            fn = H.permute if gadget == "permute" else H.poseidon_hash
+        reset()
+        try:
+            xs = [typed_input(t) for t in f[5].split(",") if t]
+            if gadget == "permute":
+                xs = [lc_of(x) for x in xs]          # permute works on the integer type
+            if guard == "1":
+                from pysnark.boolean import PrivValBool
+                res = R.guarded(PrivValBool(1))(lambda: fn(xs))()
+            else:
+                res = fn(xs)
+        except Exception as e:
+            return f"{cid}|err:{type(e).__name__}"
+        finally:
+            R.guard = None
+        outs = [res] if isinstance(res, LinComb) else ([] if isinstance(res, int) else list(res))
+        cons = B.constraints
+        unsat = [i for i, c in enumerate(cons) if (ev(c[0], recorded) * ev(c[1], recorded) - ev(c[2], recorded)) % p != 0]
+        incoh = [i for i, x in enumerate(outs) if (ev(x.lc, recorded) - x.value) % p != 0]
+        notred = [i for i, x in enumerate(outs) if not 0 <= x.value < p]
+        return (f"{cid}|{','.join(str(x.value) for x in outs) if outs else res}|ncons={len(cons)}|nunsat={len(unsat)}|unsat={','.join(map(str, unsat[:8]))}"
+                f"|incoh={','.join(map(str, incoh))}|notred={','.join(map(str, notred))}")
     return "bad-line"
 
 
